@@ -190,7 +190,8 @@ def esc_attr(s, mode, rng, encodable, quote):
 
 
 WS_CHOICES = ["\n", "\n  ", " ", "\t", "\n\n    ", "  \n"]
-PAD_CHOICES = [" ", "  ", "\n", "\t", " \n "]
+# XML white space only (#x20 #x9 #xD #xA): the property's own notion of surrounding white space
+PAD_CHOICES = [" ", "  ", "\n", "\t", " \n ", "\r", "\r\n"]
 COMMENTS = ["<!---->", "<!-- c -->", "<!--<a>&amp;-->", "<!-- é -->", "<!--x\ny-->"]
 PIS = ["<?pi?>", "<?target some data?>", "<?xml-stylesheet href='a.xsl'?>"]
 PREFIX_POOL = ["p", "q", "x", "tns", "a", "xs", "xsd", "ns0", "ns1", "ns2", "ns3", "xsi", "n-1", "_u", "é"]
